@@ -10,6 +10,7 @@ import (
 	"cmp"
 	"encoding/json"
 	"fmt"
+	"math"
 	"reflect"
 	"sort"
 	"strings"
@@ -225,7 +226,12 @@ func elem(x int) E {
 		return E(-1)
 	case 1:
 		return E(1 << 40)
+	case 2:
+		return E([]int{math.MinInt, math.MaxInt, -7, 64, 100, 255}[mod(x/17, 6)])
 	default:
+		if mod(x/17, 5) == 0 {
+			return E(mod(x/85, 300)) // a wide domain: large containers with few collisions
+		}
 		return E(mod(x/17, 12))
 	}
 }
